@@ -22,10 +22,14 @@ type wb struct {
 	vals  map[string]int
 	attrs map[string]bool
 	used  map[[2]int]bool // (permanode, date): claim dates are distinct per permanode (no tie within one permanode)
+	seen  map[string]bool // (permanode, attr, value) already set / added once
+	norep bool            // skip claims that would repeat a value (the describe path de-duplicates them: C07's business)
+	reps  bool
+	memo  map[string]int
 }
 
 func newWB() *wb {
-	return &wb{vals: map[string]int{}, attrs: map[string]bool{}, used: map[[2]int]bool{}}
+	return &wb{vals: map[string]int{}, attrs: map[string]bool{}, used: map[[2]int]bool{}, seen: map[string]bool{}}
 }
 
 func (b *wb) add(it world.Item) int {
@@ -50,6 +54,16 @@ func (b *wb) pn(tag string) int {
 
 // claim adds an attribute claim; v is a string value, an int item id (ref value) or nil (no value).
 func (b *wb) claim(typ string, pn int, attr string, v any, date, signer int) int {
+	if typ != "del" {
+		k := fmt.Sprint(pn, "|", attr, "|", v)
+		if b.seen[k] {
+			if b.norep {
+				return 0
+			}
+			b.reps = true
+		}
+		b.seen[k] = true
+	}
 	for b.used[[2]int{pn, date}] {
 		date++
 	}
@@ -86,8 +100,23 @@ func (b *wb) file(name string, date int, chunks ...int) int {
 	return b.add(world.Item{Kind: "file", Name: name, Date: date, Parts: parts})
 }
 func (b *wb) dir(name string, kids ...int) int {
-	ss := b.add(world.Item{Kind: "staticset", Children: kids})
-	return b.add(world.Item{Kind: "dir", Name: name, Children: []int{ss}})
+	// identical static sets / directories are one blob: reuse the item
+	ssKey := fmt.Sprint("ss", kids)
+	if b.memo == nil {
+		b.memo = map[string]int{}
+	}
+	ss, ok := b.memo[ssKey]
+	if !ok {
+		ss = b.add(world.Item{Kind: "staticset", Children: kids})
+		b.memo[ssKey] = ss
+	}
+	dKey := fmt.Sprint("dir", name, ss)
+	if d, ok := b.memo[dKey]; ok {
+		return d
+	}
+	d := b.add(world.Item{Kind: "dir", Name: name, Children: []int{ss}})
+	b.memo[dKey] = d
+	return d
 }
 
 // mimeOf is the harness's model of the MIME type the index records: sniffed from the
@@ -135,7 +164,7 @@ func (b *wb) finish(name string, s *world.Signers, rng *rand.Rand) (*WorldFile, 
 	if err != nil {
 		return nil, err
 	}
-	wf := &WorldFile{Name: name, Values: b.w.Values, OwnerKey: s.KeyID[1], OwnerRef: s.PubRef[1].String()}
+	wf := &WorldFile{Name: name, Values: b.w.Values, Repeats: b.reps, OwnerKey: s.KeyID[1], OwnerRef: s.PubRef[1].String()}
 	if wf.Values == nil {
 		wf.Values = []string{}
 	}
@@ -314,6 +343,15 @@ func (wf *WorldFile) vidOf(s string) int {
 		}
 	}
 	panic("no value " + s)
+}
+
+func (wf *WorldFile) lookupValue(s string) int {
+	for i, v := range wf.Values {
+		if v == s {
+			return i + 1
+		}
+	}
+	return 0
 }
 
 func (wf *WorldFile) firstOf(kind string, nth int) int {
@@ -521,7 +559,7 @@ func menuFor(wf *WorldFile) [][]Node {
 		add(Node{K: "pn", S: "camliContent", A: 2}, Node{K: "file", SP: 7})
 		add(Node{K: "dir", B: 2, Rec: true}, Node{K: "file", MP: 8})
 		add(Node{K: "pn", S: "camliNodeType", V: has("bar")})
-		add(Node{K: "pn", HasTa: true, Ta: 20})
+		add(Node{K: "pn", HasTa: true, Ta: 33})
 		add(Node{K: "anytype"})
 		add(Node{K: "pn", S: "tag", Hi: 0, ZMax: true})
 	case "wp":
@@ -551,6 +589,7 @@ func menuFor(wf *WorldFile) [][]Node {
 		add(Node{K: "dir", A: 2}, Node{K: "dir", Lo: 3})
 		add(Node{K: "type", S: "directory"})
 		add(Node{K: "pn", S: "camliContent", A: 2}, Node{K: "dir", B: 3, Rec: true}, Node{K: "file", SP: 12})
+		add(Node{K: "pn", HasTb: true, Tb: 41})
 	}
 	return m
 }
@@ -561,6 +600,7 @@ func menuFor(wf *WorldFile) [][]Node {
 func randWorld(name string, seed int64, s *world.Signers) (*WorldFile, error) {
 	rng := rand.New(rand.NewSource(seed))
 	b := newWB()
+	b.norep = true
 	b.key(1)
 	b.key(2)
 	words := []string{"some words", "more words here", "x", "GIF89a-fake-image", "hello hello", ""}
@@ -578,7 +618,7 @@ func randWorld(name string, seed int64, s *world.Signers) (*WorldFile, error) {
 		for k := rng.Intn(3); k > 0; k-- {
 			cs = append(cs, chunks[rng.Intn(len(chunks))])
 		}
-		files = append(files, b.file(fnames[rng.Intn(len(fnames))]+fmt.Sprint(i%2)[:i%2], rng.Intn(40), cs...))
+		files = append(files, b.file(fnames[rng.Intn(len(fnames))]+fmt.Sprint(i%2)[:i%2], 3*i+rng.Intn(3), cs...)) // distinct dates: distinct blobs
 	}
 	dnames := []string{"top", "sub", "mid", "deep", "hello", "other"}
 	nd := 2 + rng.Intn(4)
